@@ -1,7 +1,7 @@
 """C23 — generators and coroutines follow CPython's protocol on every history.
 
 spec/Generator.tla: the protocol as an interpreter with an input stream (PEP 342/380/479/492).
-TLC explores (body template, history) states: 30 templates (27 generator bodies incl. delegation
+TLC explores (body template, history) states: 31 templates (28 generator bodies incl. delegation
 to compiled and plain-Python inner generators, 3 `async def` coroutines over a hand-written
 awaitable) x every history over {next, send None, send 7, throw ValueError/KeyError/GeneratorExit,
 close} up to the bound; every state carries the expected answers and the body's log after the
@@ -26,10 +26,10 @@ PROP = "C23"
 
 QUICK = [("Generator", "MaxLen=4, all templates")]
 THOROUGH = [("Generator_t1", "MaxLen=5, templates 1-8"), ("Generator_t2", "MaxLen=5, templates 9-16"),
-            ("Generator_t3", "MaxLen=5, templates 17-24"), ("Generator_t4", "MaxLen=5, templates 25-30"),
+            ("Generator_t3", "MaxLen=5, templates 17-24"), ("Generator_t4", "MaxLen=5, templates 25-31"),
             ("Generator_t5", "MaxLen=6, templates 4 (ignore_ge), 9 (yf_c)"),
             ("Generator_t6", "MaxLen=6, templates 12 (yf_ignore_c), 26 (yf_drop_c)"),
-            ("Generator_t7", "MaxLen=6, templates 11 (nested_fin), 29 (co_tryfin)")]
+            ("Generator_t7", "MaxLen=6, templates 11 (nested_fin), 30 (co_tryfin)")]
 
 
 def classify(case, coro, want, got):
@@ -69,8 +69,14 @@ def build_module(pub, rep):
         f.write(src)
     with open(plainpath, "w") as f:
         f.write(plain)
-    b = core.build_many([core.BuildSpec("c23mod", src, kind="py", options={"language_level": 3})])[0]
-    return b, srcpath, plainpath, src
+    # two builds of the same module: default macros, and without the am_send slot protocol
+    import concurrent.futures
+    spec = lambda flags: core.BuildSpec("c23mod", src, kind="py", options={"language_level": 3}, cflags=flags)
+    with concurrent.futures.ThreadPoolExecutor(2) as ex:
+        f1 = ex.submit(core.build_many, [spec([])], core.subdir("build_default"))
+        f2 = ex.submit(core.build_many, [spec(["-DCYTHON_USE_AM_SEND=0"])], core.subdir("build_no_am_send"))
+        builds = [("default", f1.result()[0]), ("no_am_send", f2.result()[0])]
+    return builds, srcpath, plainpath, src
 
 
 def run(tier, seed):
@@ -90,16 +96,6 @@ def run(tier, seed):
     samples = []
     selftest = {"corrupted": 0, "rejected": 0}
     distinct_nontrivial = 0
-
-    # ---- model checking with action coverage (vacuity guard; -coverage is too slow for the big runs)
-    r = core.tlc_or_die("Generator", cfg="Generator_cov", coverage=True, timeout=1200, workers=4)
-    cov["tlc"].append(dict(r.summary(), config="MaxLen=2, all templates, -coverage, no dump"))
-    for a in ("DoNext", "DoSend", "DoThrow", "DoClose"):
-        action_cov[a] += r.coverage.get(a, (0, 0))[1]
-        if action_cov[a] == 0:
-            core.die("vacuous model: action %s never taken" % a)
-    tot["states"] += r.generated
-    tot["distinct"] += r.distinct
 
     seen_cases = set()
     for bi, (cfg, cfgdesc) in enumerate(cfgs):
@@ -121,9 +117,11 @@ def run(tier, seed):
                                                                   ("throw", -1, "KeyError"), ("throw", -1, "GeneratorExit"), ("close", -1, "")]:
                 core.die("operation table of the spec differs from the driver's")
             # ---- render + build (once)
-            b, srcpath, plainpath, src = build_module(pub, rep)
-            if not b.ok:
-                rep.disagree({"body": "*", "kind": "build", "first_op": "none", "has_del": False}, "build-failed",
+            builds, srcpath, plainpath, src = build_module(pub, rep)
+            bad = [(n, b) for n, b in builds if not b.ok]
+            if bad:
+                b = bad[0][1]
+                rep.disagree({"body": "*", "kind": "build", "first_op": "none", "has_del": False, "config": bad[0][0]}, "build-failed",
                              {"stage": b.stage, "errors": b.errors[-3000:]})
                 rc = rep.finish()
                 core.write_evidence(PROP, tier, seed, "model_checking",
@@ -131,25 +129,27 @@ def run(tier, seed):
                                      "traces_validated_against_impl": 0, "samples": ["build failed at stage %s" % b.stage]},
                                     time.time() - t0, violations=rep.n_violations())
                 return rc
-            built = b
+            built = builds
         elif pubs[0] != pub:
             core.die("template table differs between TLC runs")
 
         cases.sort(key=lambda c: (c["b"], len(c["h"]), c["h"]))
         stim = [[c["b"], c["h"]] for c in cases]
         want = [lib_gen.spec_expect(c) for c in cases]
-        moddir = os.path.dirname(built.so)
-        # ---- P: plain CPython on the same source; C: the compiled module
-        gotP = lib_gen.replay("P", moddir, srcpath, plainpath, names, kinds, stim, "p%d" % bi)
-        gotC = lib_gen.replay("C", moddir, srcpath, plainpath, names, kinds, stim, "c%d" % bi)
-        for c, w, p, g in zip(cases, want, gotP, gotC):
+        # ---- P: plain CPython on the same source; C: the compiled module (two macro configurations)
+        gotP = lib_gen.replay("P", os.path.dirname(built[0][1].so), srcpath, plainpath, names, kinds, stim, "p%d" % bi)
+        gotCs = [lib_gen.replay("C", os.path.dirname(b.so), srcpath, plainpath, names, kinds, stim, "c%d_%s" % (bi, n)) for n, b in built]
+        gotC = gotCs[0]
+        for c, w, p, g, g2 in zip(cases, want, gotP, gotCs[0], gotCs[1]):
             coro = kinds[c["b"] - 1] == "coro"
-            tot["cases"] += 1
-            tot["ops"] += len(c["h"])
             key = (c["b"], tuple(c["h"]))
             if key in seen_cases:       # the MaxLen=6 runs repeat the shorter histories of their templates
                 continue
             seen_cases.add(key)
+            tot["cases"] += 1
+            tot["ops"] += len(c["h"])
+            if c["h"]:      # every non-initial state was produced by exactly one action of Next
+                action_cov[{1: "DoNext", 2: "DoSend", 3: "DoSend", 4: "DoThrow", 5: "DoThrow", 6: "DoThrow", 7: "DoClose"}[c["h"][-1]]] += 1
             if c["s"] != "created":
                 distinct_nontrivial += 1
             classes["status:" + c["s"]] += 1
@@ -164,11 +164,13 @@ def run(tier, seed):
                 rep.spec_drift("Generator.tla vs CPython", {"body": names[c["b"] - 1], "hist": [lib_gen.OPNAMES[o] for o in c["h"]],
                                                            "spec": w, "cpython": p})
                 continue
-            if g != w:
-                oc, only_del = classify(c, coro, w, g)
-                rep.disagree(descriptor(c, names, kinds, only_del), oc,
-                             {"body": names[c["b"] - 1], "hist": [lib_gen.OPNAMES[o] for o in c["h"]], "ops": c["h"],
-                              "want [answers, log, log after del]": w, "got": g})
+            for cfgname, gg in (("default", g), ("no_am_send", g2)):
+                tot["replays"] += 1
+                if gg != w:
+                    oc, only_del = classify(c, coro, w, gg)
+                    rep.disagree(dict(descriptor(c, names, kinds, only_del), config=cfgname), oc,
+                                 {"body": names[c["b"] - 1], "hist": [lib_gen.OPNAMES[o] for o in c["h"]], "ops": c["h"],
+                                  "want [answers, log, log after del]": w, "got": gg})
         # ---- binding demonstration: corrupted expectations must be rejected by the comparison
         if bi == 0:
             idx = [i for i, c in enumerate(cases) if c["o"]]
@@ -197,9 +199,12 @@ def run(tier, seed):
         for i in rng.sample(range(len(cases)), 2):
             samples.append({"body": names[cases[i]["b"] - 1], "hist": [lib_gen.OPNAMES[o] for o in cases[i]["h"]],
                             "expected [answers, log, log after del]": want[i], "compiled": gotC[i]})
-        del cases, want, gotP, gotC, stim
+        del cases, want, gotP, gotC, gotCs, stim
 
-    # ---- vacuity guards (model side): classes of cases / expected answers
+    # ---- vacuity guards (model side): states per action of Next, classes of cases / expected answers
+    for a in ("DoNext", "DoSend", "DoThrow", "DoClose"):
+        if action_cov[a] == 0:
+            core.die("vacuous model: action %s never taken" % a)
     for k in ("status:suspended", "status:finished", "status:created", "after_del:dropped", "answer:exc:RuntimeError",
               "answer:exc:TypeError", "answer:stop:value", "answer:closed", "answer:exc:GeneratorExit", "del_runs_cleanup"):
         if classes[k] == 0:
@@ -210,7 +215,7 @@ def run(tier, seed):
     cov.update({
         "states": tot["states"], "distinct_states": tot["distinct"], "transitions": tot["states"],
         "traces_validated_against_impl": tot["cases"],
-        "evaluations": tot["cases"] * 2, "operations_replayed_on_compiled_code": tot["ops"],
+        "evaluations": tot["cases"] + tot["replays"], "build_configurations": ["default", "-DCYTHON_USE_AM_SEND=0"], "operations_replayed_on_compiled_code": tot["ops"],
         "distinct_nontrivial": distinct_nontrivial, "exhaustive": True,
         "templates": len(names), "action_coverage": dict(action_cov), "case_classes": dict(classes),
         "binding_selftest": selftest,
